@@ -199,7 +199,7 @@ def run_world(tier, seed, scripts_only=None):
         if r["sample"] and len(samples) < 3:
             samples.append(r["sample"])
         seen = {}
-        for (prop, line, name, op) in r["fails"]:
+        for (prop, line, chk, op) in r["fails"]:
             # one replay script per (trace, property): the history up to the first failure
             if prop not in seen:
                 rp = os.path.join(WORK, "replay", "%s-%s-%d.ndjson" % (prop, os.path.basename(r["trace"]).replace(".ndjson", ""), line))
@@ -207,7 +207,7 @@ def run_world(tier, seed, scripts_only=None):
                 seen[prop] = [rp, 0]
             seen[prop][1] += 1
             if seen[prop][1] <= 5:
-                fails.append({"prop": prop, "line": line, "name": name, "op": op,
+                fails.append({"prop": prop, "line": line, "name": chk, "op": op,
                               "trace": r["trace"], "replay": seen[prop][0],
                               "profile": os.path.basename(r["trace"])[:-9]})
     out = {"tier": tier, "seed": seed, "traces": len(results), "stats": dict(stats),
